@@ -132,19 +132,21 @@ PROPS = {
               ("scen", "mixed", 300, 10000), ("scen", "entry", 200, 6000), ("scen", "entry-full", 100, 4000), ("t1", {})],
         backends=["sse2", "portable"],
         design="§7 C01",
-        text="Lean refinement theorem (history_refines): for every deterministic hash function (Lawful env H: any H, incl. "
-             "all-colliding), every history of insert/get/get_mut/contains/remove/remove_entry/clear/reserve/try_reserve/"
-             "shrink/retain from new(), both scanners, all table sizes: returns are related call by call to an association-"
-             "list trace and the final contents are a permutation of the abstract map with distinct keys; insert keeps the "
+        text="Lean refinement theorems (history_refines_all_calls / history_refines): for every deterministic hash function "
+             "(Lawful env H: any H, incl. all-colliding), every history — in any interleaving — of insert/get/get_mut/contains/"
+             "remove/remove_entry/clear/reserve/try_reserve/shrink/retain, entry / entry_ref / rustc_entry / raw_entry_mut "
+             "followed by any method chain, raw_entry look-ups, try_insert, extend, get_many_mut and Index from new(), both "
+             "scanners, all table sizes: returns (and the documented panics) are related call by call to an association-"
+             "list trace (AL.StepX, proved functional) and the final contents are a permutation of the abstract map with distinct keys; insert keeps the "
              "originally stored key object; look-ups depend on the probe only through hash and Eq. Proved by induction over "
              "the history with the invariant InvL (tag, reachability along the probe sequence, key distinctness), incl. "
              "resize, in-place rehash and the tombstone rule. Tie: full state dump after every operation on generated "
              "histories under 10 hash-plan families (mixed, const0, constMax, sequential, cluster, position x tag, lsb twins, "
              "same position, same tag, group stride) x element layouts, forced in-place rehash (saturate), both builds; "
              "direct oracle: reference association list + structural invariant on the real collection after every call.",
-        note="Trusted: Lean kernel, axioms propext/Classical.choice/Quot.sound; harness, hooks, protocol. try_insert, entry/"
-             "entry_ref, extend/from_iter are modelled (Hb/Model/Entry.lean) and tied + judged by the reference oracle, but "
-             "their refinement is not in history_refines (they reduce to find/insert paths proved here); listed as partial.",
+        note="Trusted: Lean kernel, axioms propext/Classical.choice/Quot.sound; harness, hooks, protocol. Raw-entry builders "
+             "with a caller-supplied hash are in the history theorem under their documented contract (hash = the key's hash). "
+             "from_iter is specified per call (C14 fromIter_spec), not as a history op (it replaces the collection).",
     ),
     "C02": dict(
         module="Hb.Props.C02",
@@ -155,9 +157,10 @@ PROPS = {
         design="§7 C02",
         text="Proof of the index/ownership logic: in the Lean model every raw access is checked (control byte outside "
              "[0, n+W), write to the static singleton, slot outside the table, read/drop of a dead slot, write over a live slot, "
-             "unwrap_unchecked(None), usize underflow, non-terminating loop => `fault`). Theorem run_safe: for EVERY environment "
+             "unwrap_unchecked(None), usize underflow, non-terminating loop => `fault`). Theorems run_safe / runX_safe: for EVERY environment "
              "(any hasher incl. all-colliding/inconsistent, panicking callbacks, refusing allocator), every history of the "
-             "modelled calls incl. forgetting a part-consumed drain, `fault` is unreachable and the API invariant holds after "
+             "modelled calls (basic calls, every entry-API family with any chain and any caller-supplied hash, try_insert, "
+             "extend, get_many_mut, Index) incl. forgetting a part-consumed drain, `fault` is unreachable and the API invariant holds after "
              "every call (returned or unwound); a forgotten drain leaves the valid empty singleton; element regions of the "
              "layout are pairwise disjoint, inside the block and aligned (from C17). Tie: full dumps after every call on "
              "histories over element layouts (32..200 bytes, align 8..64, odd 5-byte/align-1, zero-sized in tables), tables "
